@@ -4,6 +4,7 @@ values: a seeded step whose output depends on the per-process string-hash salt (
 goes to which item) is not reproducible across processes although it is inside one process.
 
 No instrumentation here: plain numpy generators, no torch / pyro import."""
+import gc
 import json
 import os
 import shutil
@@ -38,12 +39,17 @@ def run_one(case):
         np.random.seed(case.get("gseed", 0) % (2 ** 32))
         G = np.random.default_rng(case["seed"])
         try:
+            if case["op"] == "tight":
+                return "|".join(common.short_hash(x) if not x.startswith("err:") else x for x in H.run_tight(case).split("|"))
             _, _, out = H.OPS[case["op"]](case, G, _NoInstr(), tmp)
             return common.short_hash(out)
         except Exception as e:
             return "err:" + type(e).__name__
     finally:
         shutil.rmtree(tmp, ignore_errors=True)
+        # Screen <-> Plate reference cycles keep the inputs of a case alive until the cyclic collector runs; collect now, so that the next
+        # case's objects are allocated at the addresses just freed (checklist item 10: identity-keyed caches on temporaries)
+        gc.collect()
 
 
 def main():
